@@ -206,6 +206,10 @@ class Lab:
         from lingpy import cache
         self.version_dir = os.path.relpath(str(cache.DIR), home)       # lingpy/<version>
         assert str(cache.DIR).startswith(home), cache.DIR
+        # the decoder under test is the code's own cache.load (whatever framing cache.dump uses), kept
+        # here before anything is wrapped; it is always called with an explicit directory
+        self.real_load = cache.load
+        self.boot_dir = str(cache.DIR)
         self.ref_bytes = {f: open(os.path.join(str(cache.DIR), f), "rb").read()
                           for f in sorted(os.listdir(str(cache.DIR)))}
         self._reference_objects()
@@ -217,19 +221,26 @@ class Lab:
         first start left must be the pickles of exactly these objects, over ALL keys."""
         self.src_canon = source_objects(self.src, self.dirs)
         self.ref_digest = {lab: canon_digest(c) for lab, c in self.src_canon.items()}
-        self._check_reference_files(self.ref_bytes, "the start on an absent cache directory")
+        self._check_reference_files(self.boot_dir, self.ref_bytes, "the start on an absent cache directory")
         need = {("dvt_el" if s["arg"] in ("el", "evolaemp") else "dvt") + ".pkl" if s["kind"] == "dvt"
                 else s["arg"] + ".converter.pkl" for s in self.steps}
         missing = sorted(need - set(self.ref_bytes))
         if missing:
             raise RuntimeError("the first start did not write %s" % missing)
 
-    def _check_reference_files(self, files, who):
+    def read_entry(self, d, fname):
+        """What the code's own decoder makes of the file fname in directory d (raises as it raises)."""
+        if fname.endswith(".pkl"):
+            return self.real_load(fname[:-4], d=pathlib.Path(str(d)))
+        with open(os.path.join(str(d), fname), "rb") as fp:      # a foreign file cache.load cannot name
+            return pickle.load(fp)
+
+    def _check_reference_files(self, d, files, who):
         for f, b in sorted(files.items()):
             lab = label_of_file(f)
             if lab not in self.ref_digest:
                 raise RuntimeError("%s wrote %s, for which the data files define no object" % (who, f))
-            obj = pickle.loads(b)
+            obj = self.read_entry(d, f)
             if digest(obj) != self.ref_digest[lab]:
                 raise RuntimeError("%s wrote %s, whose content differs from what the data files define: %s"
                                    % (who, f, describe_difference(canon(obj), self.src_canon[lab])))
@@ -246,7 +257,7 @@ class Lab:
         for f, b in self.ref_bytes.items():
             if allf.get(f) != b:
                 raise RuntimeError("the calls %s rewrote the intact entry %s" % (self.pool, f))
-        self._check_reference_files(allf, "the calls outside the import sequence")
+        self._check_reference_files(d, allf, "the calls outside the import sequence")
         self.import_files = sorted(self.ref_bytes)          # what a plain start writes
         self.ref_bytes = allf
 
@@ -267,14 +278,13 @@ class Lab:
         return True, {f: self.content(f, open(os.path.join(d, f), "rb").read()) for f in sorted(os.listdir(d))
                       if os.path.isfile(os.path.join(d, f))}
 
-    @staticmethod
-    def decoder_obs(d):
+    def decoder_obs(self, d):
+        """file -> did the code's decoder (cache.load) raise on it"""
         d, out = str(d), {}
         if os.path.isdir(d):
             for f in sorted(os.listdir(d)):
                 try:
-                    with open(os.path.join(d, f), "rb") as fp:
-                        pickle.load(fp)
+                    self.read_entry(d, f)
                     out[f] = False
                 except Exception:
                     out[f] = True
@@ -629,6 +639,12 @@ def from_json(c):
 def shrink(case):
     if case["kind"] != "inproc":
         return
+    for i, rd in enumerate(case["rounds"]):
+        if len(rd["faults"]) > 2:                      # straight to one fault, if one alone suffices
+            for f in sorted(rd["faults"]):
+                c = from_json(json.loads(json.dumps(case)))
+                c["rounds"][i]["faults"] = {f: tuple(rd["faults"][f])}
+                yield c
     for i, rd in enumerate(case["rounds"]):
         for f in sorted(rd["faults"]):
             c = json.loads(json.dumps(case))
